@@ -4,13 +4,6 @@ From Snap.Split Require Import SplitModel SplitAddr SplitFill.
 Import ListNotations.
 Local Open Scope N_scope.
 
-(* zero sizes only at the end: no unused split before a used one *)
-Fixpoint packed (sizes : list N) : Prop :=
-  match sizes with
-  | [] => True
-  | x :: r => (x = 0 -> Forall (fun y => y = 0) r) /\ packed r
-  end.
-
 (* the files on disk have their recorded size, which is block aligned *)
 Definition wfh (bs : N) (hs : list hsplit) : Prop := Forall (fun h => st h = sz h /\ (bs | sz h)) hs.
 
@@ -61,7 +54,20 @@ Proof.
 Qed.
 
 (* --- one iteration of the loop of parity_chsize ------------------------------------------------- *)
-Definition fixed0 (rest : list hsplit) : bool := match rest with [] => false | n :: _ => negb (sz n =? 0) end.
+Notation fixed0 := later_used.
+
+Lemma later_used_true rest j hj : nth_error rest j = Some hj -> sz hj <> 0 -> later_used rest = true.
+Proof.
+  intros Hj Hnz. unfold later_used. apply existsb_exists. exists hj. split; [eapply nth_error_In; exact Hj|].
+  apply negb_true_iff, N.eqb_neq. exact Hnz.
+Qed.
+
+Lemma later_used_false rest : later_used rest = false -> Forall (fun y => y = 0) (map sz rest).
+Proof.
+  unfold later_used. induction rest as [|n r IH]; cbn [existsb map]; intros H; [constructor|].
+  apply orb_false_iff in H. destruct H as [H1 H2]. constructor; [|apply IH; exact H2].
+  apply negb_false_iff, N.eqb_eq in H1. exact H1.
+Qed.
 
 Definition keep_of (rest : list hsplit) (size : N) (h : hsplit) : bool := fixed0 rest && negb (size <=? sz h).
 Definition run_of (rest : list hsplit) (size : N) (h : hsplit) : N := if keep_of rest size h then sz h else size.
@@ -127,28 +133,29 @@ Proof.
     + constructor; [cbn [st valid]; auto|exact V].
 Qed.
 
-(* --- a split followed by a used split never grows ------------------------------------------------- *)
-Lemma chsize_loop_fixed : forall hs s size hs' rem i h n h',
+(* --- a split with a used split anywhere after it never grows ---------------------------------------- *)
+Lemma chsize_loop_fixed : forall hs s size hs' rem i j h hj h',
   chsize_loop g bs s hs size = Ok (hs', rem) ->
-  nth_error hs i = Some h -> nth_error hs (S i) = Some n -> sz n <> 0 -> nth_error hs' i = Some h' ->
+  (i < j)%nat -> nth_error hs i = Some h -> nth_error hs j = Some hj -> sz hj <> 0 -> nth_error hs' i = Some h' ->
   sz h' <= sz h /\
   (st h = sz h -> sz h' = N.min (sz h) (size - prefix (map sz hs') i)).
 Proof.
-  induction hs as [|h0 rest IH]; intros s size hs' rem i h n h' H Hi Hn Hnz Hi'.
+  induction hs as [|h0 rest IH]; intros s size hs' rem i j h hj h' H Hij Hi Hj Hnz Hi'.
   - destruct i; discriminate.
   - destruct (chsize_loop_cons_inv _ _ _ _ _ _ H) as [h1 [rest' [E1 [Hle [Hk [Hal [E2 ->]]]]]]].
+    destruct j as [|j]; [lia|]. cbn in Hj.
     destruct i as [|i].
-    + cbn in Hi, Hn, Hi'. injection Hi as ->. injection Hi' as <-. cbn [sz].
-      destruct rest as [|n0 rest0]; [discriminate|]. cbn in Hn. injection Hn as ->.
-      assert (F : fixed0 (n :: rest0) = true) by (cbn; apply negb_true_iff, N.eqb_neq; exact Hnz).
+    + cbn in Hi, Hi'. injection Hi as ->. injection Hi' as <-. cbn [sz].
+      assert (F : later_used rest = true) by (eapply later_used_true; eassumption).
       unfold run_of, keep_of in *.
       rewrite F in *. cbn [andb] in *. unfold prefix. cbn [firstn sum]. rewrite N.sub_0_r.
       destruct (handle_chsize_inv _ _ _ _ E1) as [_ [_ [_ Hc]]].
       destruct (N.leb_spec size (sz h)) as [Hsz|Hsz]; cbn [negb] in *.
       * split; [lia|]. intros Hst. destruct Hc as [[Hc _]|[_ Hc]]; lia.
       * destruct (Hk eq_refl) as [Hk1 _]. split; [lia|]. intros _. lia.
-    + cbn in Hi, Hn, Hi'.
-      destruct (IH _ _ _ _ _ _ _ _ E2 Hi Hn Hnz Hi') as [A B]. split; [exact A|].
+    + cbn in Hi, Hi'.
+      assert (Hij' : (i < j)%nat) by lia.
+      destruct (IH _ _ _ _ i j _ _ _ E2 Hij' Hi Hj Hnz Hi') as [A B]. split; [exact A|].
       intros Hst. rewrite (B Hst). unfold prefix. cbn [map firstn sum sz]. f_equal. lia.
 Qed.
 
@@ -160,56 +167,6 @@ Proof.
   assert (Z : sum (map sz hs') = 0) by lia. split; [|lia].
   clear -Z. induction hs' as [|h r IH]; [constructor|]. cbn [map sum] in Z.
   constructor; [lia|apply IH; lia].
-Qed.
-
-(* --- packed sizes stay packed when every split can hold one block --------------------------------- *)
-Hypothesis g_mono : forall s x y, x <= y -> g s y = true -> g s x = true.
-Hypothesis g_cap : forall s, g s bs = true.
-
-Lemma packed_tail x r : packed (x :: r) -> packed r. Proof. intros [_ H]. exact H. Qed.
-
-Lemma packed_zeros r : Forall (fun y => y = 0) r -> packed r.
-Proof. induction 1 as [|x r Hx Hr IH]; cbn; [exact I|]. split; [intros _; exact Hr|exact IH]. Qed.
-
-Lemma chsize_loop_packed : forall hs s size hs' rem,
-  wfh bs hs -> packed (map sz hs) -> (bs | size) ->
-  chsize_loop g bs s hs size = Ok (hs', rem) ->
-  packed (map sz hs') /\ (rem <> 0 -> Forall (fun h => sz h <> 0) hs').
-Proof.
-  induction hs as [|h rest IH]; intros s size hs' rem W P Hsz H.
-  - cbn in H. injection H as <- <-. cbn. auto.
-  - destruct (chsize_loop_cons_inv _ _ _ _ _ _ H) as [h1 [rest' [E1 [Hle [Hk [Hal [E2 ->]]]]]]].
-    inversion W as [|? ? [Wst Wal] W']; subst.
-    assert (Hsz1 : (bs | size - st h1)) by (apply N.divide_sub_r; assumption).
-    destruct (IH _ _ _ _ W' (packed_tail _ _ P) Hsz1 E2) as [P' NZ'].
-    pose proof (run_le_size rest size h) as Hrun.
-    destruct (N.eq_dec (size - st h1) 0) as [Hz|Hnz].
-    + rewrite Hz in E2. destruct (chsize_loop_zero _ _ _ _ E2) as [Z ->].
-      cbn [map sz packed]. split; [|congruence]. split; [|exact P'].
-      intros _. clear -Z. induction Z; constructor; auto.
-    + (* something remains for the following splits: this one is not empty *)
-      assert (Hne : st h1 <> 0).
-      { destruct (handle_chsize_inv _ _ _ _ E1) as [_ [_ [_ Hc]]].
-        unfold run_of in *. destruct (keep_of rest size h) eqn:Ek.
-        - (* kept at its recorded size, which is not 0 because the next one is used *)
-          destruct (Hk eq_refl) as [Hk1 _]. rewrite Hk1. rewrite <- Wst. intros Hz0.
-          unfold keep_of in Ek. apply andb_true_iff in Ek. destruct Ek as [Ef _].
-          destruct rest as [|n rest0]; [discriminate|]. cbn in Ef.
-          destruct P as [P0 _]. cbn [sz] in P0. rewrite Wst in Hz0. specialize (P0 Hz0).
-          cbn [map] in P0. inversion P0 as [|? ? Hn0 _]; subst.
-          rewrite Hn0 in Ef. discriminate.
-        - destruct Hc as [[Hlt Hf]|[Hge Hs]]; [|lia].
-          intros Hz0. rewrite Hz0 in Hf.
-          assert (Hst0 : mask_down bs (st h) <= size).
-          { pose proof (mask_down_le k (st h)). lia. }
-          destruct (fill_maximal (g s) k (g_mono s) (st h) size Hsz Hst0) as [b [Eb [_ [Hb1 [_ [_ [_ Hmax]]]]]]].
-          rewrite Eb in Hf. injection Hf as ->.
-          assert (Hbs : bs <= size).
-          { destruct Hsz as [c Hc]. assert (c <> 0) by (intros ->; lia). pose proof bs_pos. nia. }
-          specialize (Hmax bs (N.divide_refl _) ltac:(lia) Hbs (g_cap s)). pose proof bs_pos. lia. }
-      cbn [map sz packed]. split.
-      * split; [intros; contradiction|exact P'].
-      * intros Hr. constructor; [cbn [sz]; exact Hne|apply NZ'; exact Hr].
 Qed.
 
 End Chsize.
@@ -226,9 +183,9 @@ Lemma chsize_ok : forall hs size hs' m, chsize g bs hs size = Ok (hs', m) ->
   Forall (fun h => st h = sz h /\ (bs | sz h)) hs' /\           (* on disk as recorded; block aligned *)
   Forall2 (fun h h' => valid h' <= valid h /\ valid h' <= st h') hs hs' /\  (* valid_size never enlarged *)
   (m = false <-> map sz hs' = map sz hs) /\                     (* is_modified is exact *)
-  (* only the last used split grows: a split followed by a used one never grows, and if its file is as
-     recorded it keeps its size unless the array shrinks below its end *)
-  (forall i h n h', nth_error hs i = Some h -> nth_error hs (S i) = Some n -> sz n <> 0 ->
+  (* only the last used split grows: a split with a used split anywhere after it never grows, and if its file is
+     as recorded it keeps its size unless the array shrinks below its end *)
+  (forall i j h hj h', (i < j)%nat -> nth_error hs i = Some h -> nth_error hs j = Some hj -> sz hj <> 0 ->
      nth_error hs' i = Some h' ->
      sz h' <= sz h /\ (st h = sz h -> sz h' = N.min (sz h) (size - prefix (map sz hs') i))).
 Proof.
@@ -238,7 +195,7 @@ Proof.
   destruct (chsize_loop_sum k g _ _ _ _ _ E) as [L [S [F V]]].
   split; [exact L|]. split; [lia|]. split; [exact F|]. split; [exact V|]. split.
   - rewrite any_changed_spec by (rewrite map_length; lia). split; intros; symmetry; assumption.
-  - intros i h n h'. apply (chsize_loop_fixed k g _ _ _ _ _ _ _ _ _ E).
+  - intros i j h hj h'. apply (chsize_loop_fixed k g _ _ _ _ _ _ _ _ _ _ E).
 Qed.
 
 (* the failure outcome "You miss n bytes": the splits could not take everything *)
@@ -268,45 +225,22 @@ Qed.
 
 End ChsizeTop.
 
-(* "only the last used split grows", in the strong reading: any split that has a used split somewhere
-   after it keeps or reduces its size.  True when no unused split precedes a used one ... *)
-Lemma chsize_only_last_grows_partial : forall k g hs size hs' m,
-  packed (map sz hs) ->
+(* "only the last used split grows": any split that has a used split somewhere after it keeps or reduces its size
+   (since the repair of parity_split_is_fixed this needs no hypothesis on the recorded sizes) *)
+Lemma chsize_only_last_grows : forall k g hs size hs' m,
   chsize g (2^k) hs size = Ok (hs', m) ->
   forall i j h hj h', (i < j)%nat -> nth_error hs i = Some h -> nth_error hs j = Some hj -> sz hj <> 0 ->
     nth_error hs' i = Some h' -> sz h' <= sz h.
 Proof.
-  intros k g hs size hs' m P H i j h hj h' Hij Hi Hj Hnz Hi'.
-  assert (exists n, nth_error hs (S i) = Some n /\ sz n <> 0) as [n [Hn Hnn]].
-  { clear H Hi' h'. revert i j h Hij Hi Hj P. induction hs as [|x r IH]; intros i j h Hij Hi Hj P.
-    - destruct i; discriminate.
-    - destruct i as [|i].
-      + destruct j as [|j]; [lia|]. cbn in Hj. destruct r as [|n r0]; [destruct j; discriminate|].
-        exists n. split; [reflexivity|]. intros Hz. destruct P as [_ [P1 _]]. cbn [map] in P1.
-        destruct j as [|j]; cbn in Hj; [injection Hj as ->; contradiction|].
-        specialize (P1 Hz). rewrite Forall_forall in P1. apply Hnz. apply (P1 (sz hj)).
-        apply in_map. eapply nth_error_In. exact Hj.
-      + destruct j as [|j]; [lia|]. cbn in Hi, Hj. destruct P as [_ P].
-        destruct (IH i j h ltac:(lia) Hi Hj P) as [n [A B]]. exists n. split; [exact A|exact B]. }
+  intros k g hs size hs' m H i j h hj h' Hij Hi Hj Hnz Hi'.
   destruct (chsize_ok k g _ _ _ _ H) as [_ [_ [_ [_ [_ F]]]]].
-  apply (F i h n h' Hi Hn Hnn Hi').
+  apply (F i j h hj h' Hij Hi Hj Hnz Hi').
 Qed.
 
-(* ... and false in general: with an unused split in the middle, split 0 is "the one followed by a zero",
-   so it grows, the used split 2 is emptied, and the address map moves. *)
-Definition refute_hs : list hsplit :=
-  [ {| sz := 1024; st := 1024; valid := 1024 |}; {| sz := 0; st := 0; valid := 0 |};
-    {| sz := 1024; st := 1024; valid := 1024 |} ].
-
-Lemma chsize_only_last_grows_refuted :
-  exists k g hs size hs' m,
-    chsize g (2^k) hs size = Ok (hs', m) /\
-    exists i j h hj h', (i < j)%nat /\ nth_error hs i = Some h /\ nth_error hs j = Some hj /\ sz hj <> 0 /\
-      nth_error hs' i = Some h' /\ sz h < sz h'.
-Proof.
-  exists 10, (fun _ _ => true), refute_hs, 3072.
-  eexists. eexists. split; [vm_compute; reflexivity|].
-  exists 0%nat, 2%nat. eexists. eexists. eexists.
-  split; [lia|]. split; [reflexivity|]. split; [reflexivity|]. split; [cbn; lia|]. split; [reflexivity|].
-  cbn. lia.
-Qed.
+(* the layout that used to lose parity (an unused split between two used ones): now split 0 and the unused split
+   stay as they are and the last split takes the growth *)
+Lemma chsize_midzero_example :
+  let u := fun n => {| sz := n; st := n; valid := n |} in
+  exists hs', chsize (fun _ _ => true) (2^10) [u 1024; u 0; u 1024] 3072 = Ok (hs', true) /\
+              map sz hs' = [1024; 0; 2048].
+Proof. cbv zeta. eexists. split; vm_compute; reflexivity. Qed.
